@@ -4,7 +4,7 @@ macro_rules! width_list {
     () => {
         dispatch_widths!(dispatch, call, Op;
             0, 1, 2, 3, 4, 5, 6, 7, 8, 9, 10, 11, 12, 16, 17, 24, 31, 32, 33, 39, 40,
-    60, 63, 64, 65, 72, 120, 127, 128, 129, 191, 192, 193, 200, 250, 255, 256, 257, 320, 384, 448, 511, 512, 513, 1024, 1025, 1216, 2048, 4096, 4160, 65536, 131072);
+    60, 63, 64, 65, 72, 120, 127, 128, 129, 191, 192, 193, 200, 250, 255, 256, 257, 320, 384, 448, 511, 512, 513, 1024, 1025, 1216, 2048, 4096, 4160, 4672, 65536, 131072);
     };
 }
 const SWEEP: bool = false;
